@@ -2,14 +2,16 @@
 from ..core.model import Program
 from ..core.report import CheckContext
 from ..core.resolve import Resolver
-from ..rules import own
-from .common import run_control
+from ..rules import dedup, own
+from .common import run_control, generic_rules, anchor_funcs
 
 
 def analyse(ctx: CheckContext, p: Program):
     r = Resolver(p)
+    generic_rules(ctx, p, r, "C10")
     cone = r.pipeline_cone()
     own.check_utility_ownership(ctx, p, r, cone)
+    dedup.check_identity_dedup(ctx, p, r, anchor_funcs(p, "C10"))
 
 
 def run(ctx: CheckContext):
@@ -21,6 +23,10 @@ def run(ctx: CheckContext):
         "depends on label matching at run time and is NOT decided",
     ]
     d = "OpenPinch/analysis/data_preparation.py"
+    run_control(ctx, "C10/combined-collection-memoised", analyse, p.root, "OpenPinch/classes/zone.py",
+                "        return self._hot_streams + self._cold_streams", "        if self._ps is None:\n            self._ps = self._hot_streams + self._cold_streams\n        return self._ps", "MEMO-DEP")
+    run_control(ctx, "C10/dedup-by-name", analyse, p.root, d, "candidate_id = id(candidate)", "candidate_id = (candidate.zone, candidate.name)", "DEDUP-ID", count=2)
+    run_control(ctx, "C10/zero-temperature-dropped", analyse, p.root, d, "if t_target is None or", "if not t_target or", "TRUTHY")
     run_control(ctx, "C10/no-copy", analyse, p.root, d, "zone.hot_utilities.add_many(copy.deepcopy(hot_utilities))", "zone.hot_utilities.add_many(hot_utilities)", "OWN")
     run_control(ctx, "C10/shallow-copy", analyse, p.root, d, "zone.cold_utilities.add_many(copy.deepcopy(cold_utilities))", "zone.cold_utilities.add_many(copy.copy(cold_utilities))", "OWN")
     run_control(ctx, "C10/shared-assignment", analyse, p.root, d,
